@@ -17,7 +17,7 @@ demo=$(ls $SRC/demo_test.go 2>/dev/null)
 pkgdir=$(grep -o -E '`?(vm|env|parser|core|ast/astutil|packages)/?`?' $SRC/README.md | head -1 | tr -d '`/')
 [ -z "$pkgdir" ] && pkgdir=vm
 pkgline=$(grep -m1 '^package ' "$demo" | awk '{print $2}')
-case "$pkgline" in env*) pkgdir=env;; vm*) pkgdir=vm;; parser*) pkgdir=parser;; core*) pkgdir=core;; astutil*) pkgdir=ast/astutil;; main) pkgdir=.;; *) pkgdir="zzdemo_$pkgline"; mkdir -p "$WT/$pkgdir";; esac
+case "$pkgline" in packages*) pkgdir=packages;; env*) pkgdir=env;; vm*) pkgdir=vm;; parser*) pkgdir=parser;; core*) pkgdir=core;; astutil*) pkgdir=ast/astutil;; main) pkgdir=.;; *) pkgdir="zzdemo_$pkgline"; mkdir -p "$WT/$pkgdir";; esac
 names=$(grep -o -E '^func (Test[A-Za-z0-9_]+)' "$demo" | awk '{print $2}' | paste -sd'|')
 run_demo() { ( cd "$WT" && cp "$demo" "$pkgdir/zz_seed_demo_test.go" && timeout 600 go test -vet=off -count=1 -timeout 300s -run "^($names)\$" ./$pkgdir/ > "$1" 2>&1; rc=$?; rm -f "$pkgdir/zz_seed_demo_test.go"; exit $rc ); }
 run_demo "$OUT/demo_clean.log"; clean_rc=$?
